@@ -364,6 +364,8 @@ def run_property(prop, tier, seed, only=None, replay_meta=None):
     for ksig, e in sorted(known_seen.items()):
         lines.append("KNOWN-FINDING: property=%s %s [%s] (observed %d×)" % (prop, e["what"], ksig, e["count"]))
     rdir = os.path.join(VERIF, "replay", prop)
+    if os.environ.get("VERIF_EVIDENCE_DIR"):
+        rdir = os.path.join(os.environ["VERIF_EVIDENCE_DIR"], "replay", prop)
     if replay_meta is None and repo == "/repo":
         shutil.rmtree(rdir, ignore_errors=True)  # replay files describe the latest run only
     for v in new_viol:
@@ -433,6 +435,10 @@ def write_evidence(prop, cfg, tier, seed, merged, distinct, known_seen, new_viol
     if B.repo_dir() != "/repo":
         # runs against scratch copies (mutant validation) must not overwrite the evidence of /repo
         path = os.path.join(VERIF, "runs", B._tag(B.repo_dir()), prop + ".evidence.json")
+    if os.environ.get("VERIF_EVIDENCE_DIR"):
+        # runs against /repo with a seeded change applied (driver.seeded): the committed evidence describes the unchanged tree only
+        os.makedirs(os.environ["VERIF_EVIDENCE_DIR"], exist_ok=True)
+        path = os.path.join(os.environ["VERIF_EVIDENCE_DIR"], prop + ".json")
     with open(path + ".tmp", "w") as fh:
         json.dump(ev, fh, indent=1, sort_keys=False, default=str)
     os.replace(path + ".tmp", path)
